@@ -160,6 +160,8 @@ Lemma client_populate_tk sys pk : pop_tk sys (client_populate pk).
 Proof.
   intros dst old. unfold client_populate, skip, read_all, quiet.
   pose proof (tk_write_chunks sys dst) as Hw.
+  assert (Hp : forall chunks, allc (tmp_ok sys) (try (write_chunks dst chunks) (fun _ => Ret (@Err unit (Custom CNotFound)))) (fun _ => True)).
+  { intros chunks. unfold try. eapply allc_bind; [apply Hw|]. intros [u|e|] _; apply allc_ret; exact I. }
   destruct old as [o|]; destruct pk; cbn [bind call1]; unfold allc; cbn [wp]; unfold after, k_step; cbn [tmp_ok];
-    repeat (first [ intros ?r | exact I | apply Hw ]; cbn [bind wp]; unfold after, k_step; cbn [tmp_ok]).
+    repeat (first [ intros ?r | exact I | apply Hw | apply Hp ]; cbn [bind wp]; unfold after, k_step; cbn [tmp_ok]).
 Qed.
